@@ -457,6 +457,11 @@ theorem int_resize_exact {l : List Nat} (t : Nat) (h : WF l) (h1 : 1 ≤ l.lengt
     (t ≤ l.length → intResize t l = l.take t ∧ val (intResize t l) = val l % B ^ t) :=
   ⟨intResize_widen t h h1, intResize_shorten t h⟩
 
+/-- `Int::resize` in one formula (what the driver prints as L0): the `T`-limb two's-complement pattern
+    of the signed value, for every source and target limb count -/
+theorem int_resize_pattern {l : List Nat} (t : Nat) (h : WF l) (h1 : 1 ≤ l.length) :
+    val (intResize t l) = ofInt t (toInt l) := intResize_ofInt t h h1
+
 /-! ## non-vacuity: the hypotheses are satisfiable by concrete non-trivial inputs -/
 
 example : WF [0x8899aabbccddeeff, 0x0011223344556677] := by
